@@ -38,6 +38,21 @@ CHECKS["C01"] = dict(
          "non-UID FETCH/STORE/SEARCH. The model is tied to the real Authenticated/Mailbox/IMAPUserServer objects by "
          "comparing everything each session is sent, step by step, on generated multi-session histories.",
     note=MBOX_NOTE, ref="6/C01")
+CHECKS["C02"] = dict(
+    technique="Coq invariant + step-relation proofs over all histories of the world model; differential correspondence; UID ledger oracle",
+    text="Theorems: in every reachable world UIDs are strictly ascending and below UIDNEXT; over any further history UIDNEXT "
+         "never decreases, UIDVALIDITY never changes and no UID below UIDNEXT is ever assigned to a new message; APPENDUID "
+         "is the old UIDNEXT and names the appended message. Tied to the code by step-by-step comparison of generated "
+         "histories (restarts, deliveries, packing) and by a ledger oracle over white-box snapshots; UIDVALIDITY of "
+         "deleted/recreated and renamed mailboxes is checked on the real commands.",
+    note=MBOX_NOTE + " RENAME/DELETE are not in Model/Mbox.v (implementation-side oracle only); crash points belong to C11.", ref="6/C02")
+CHECKS["C03"] = dict(
+    technique="Coq step-relation proof (binding of UID to content is stable over any history) + differential correspondence with content-tagged messages",
+    text="Theorems: a message that still exists under a UID after any further history (expunges, moves, packing, deliveries, "
+         "copies, restarts) has the same content and internal date; one message per UID; the UID form of a command resolves "
+         "to exactly the positions whose UID is in the set's denotation. Tied to the code by comparing every body fetch of "
+         "generated histories (packing forced at 4 messages) with the model and by a binding oracle over the real files.",
+    note=MBOX_NOTE, ref="6/C03")
 NOT_YET = {}
 
 props = [json.loads(l) for l in (V / "properties.jsonl").read_text().splitlines() if l.strip()]
